@@ -479,10 +479,23 @@ def write_evidence(pid, mod, tier, seed, recs, wall, violations, exhaustive, not
     d = os.path.join(OUT, "evidence")
     os.makedirs(d, exist_ok=True)
     path = os.path.join(d, "%s.json" % pid)
+    ev = _strict(json.loads(json.dumps(ev, default=_json_default)))
     with open(path, "w") as f:
-        json.dump(ev, f, indent=1, default=_json_default)
+        json.dump(ev, f, indent=1, allow_nan=False)
     _validate_evidence(ev)
     return path
+
+
+def _strict(o):
+    """Evidence files are strict JSON: non-finite floats (generated on purpose, e.g. an infinite
+    pilot) are written as strings."""
+    if isinstance(o, float) and (o != o or o in (float("inf"), float("-inf"))):
+        return repr(o)
+    if isinstance(o, dict):
+        return {k: _strict(v) for k, v in o.items()}
+    if isinstance(o, list):
+        return [_strict(v) for v in o]
+    return o
 
 
 def _validate_evidence(ev):
